@@ -89,7 +89,12 @@ func (r *Rtmp2RtspRemuxer) FeedRtmpMsg(msg base.RtmpMsg) {
 		}
 		return
 	case base.RtmpTypeIdAudio:
-		if len(msg.Payload) <= 2 {
+		// aac messages carry two header bytes (sound format, packet type) in front of the frame, all other formats one
+		audioHeaderLen := 1
+		if msg.AudioCodecId() == base.RtmpSoundFormatAac {
+			audioHeaderLen = 2
+		}
+		if len(msg.Payload) <= audioHeaderLen {
 			Log.Warnf("rtmp msg too short, ignore. header=%+v, payload=%s", msg.Header, hex.Dump(msg.Payload))
 			return
 		}
